@@ -77,6 +77,66 @@ def check_state(ck, rec, RPD, data, corrupt=None):
     ck.sample({"state": absstate.to_json(key), "n_orders": len(orders), "paths": npaths, "log_pdf": lp})
 
 
+class _Captured(Exception):
+    def __init__(self, order):
+        self.order = order
+
+
+def sampler_orders(ck, recs, data, max_points=3):
+    """The order each sampler actually hands to its SMC pass (burn-in: UnconditionalSMCSampler; particle Gibbs:
+    ParticleGibbsTreeSampler) - the SMC classes are replaced by a stub that captures the data order - must have the
+    law Perm.tla specifies: uniform on the orders compatible with the current tree."""
+    import types
+    import phyclone.smc.samplers.unconditional as unc
+    import phyclone.mcmc.particle_gibbs as pg
+
+    class StubSMC:
+        def __init__(self, *a, **k):
+            dps = a[0] if (a and isinstance(a[0], (list, tuple))) else a[1]
+            raise _Captured(tuple(dp.idx for dp in dps))
+
+    saved = (unc.SMCSampler, pg.ConditionalSMCSampler)
+    unc.SMCSampler = StubSMC
+    pg.ConditionalSMCSampler = StubSMC
+    try:
+        for rec in recs:
+            key = absstate.canon(rec["st"])
+            ids = sorted(absstate.data_ids(key))
+            if not ids or len(ids) > max_points:
+                continue
+            orders = {tuple(o) for o in rec["orders"]}
+            for which in ("burn-in", "particle Gibbs"):
+                rng = EnumRNG()
+                kern = types.SimpleNamespace(rng=rng)
+                sampler = unc.UnconditionalSMCSampler(kern, num_particles=2) if which == "burn-in" else pg.ParticleGibbsTreeSampler(kern, rng, num_particles=2)
+
+                def go():
+                    t = absstate.build(key, data)
+                    try:
+                        sampler.sample_tree(t)
+                    except _Captured as c:
+                        return c.order
+                    return None
+
+                law = {}
+                for res, p, _ in enumerate_paths(go, rng):
+                    law[res] = law.get(res, 0.0) + p
+                ck.evaluations += len(law)
+                rep = {"state": absstate.to_json(key), "sampler": which, "expected_orders": sorted(orders)}
+                if None in law:
+                    ck.note("the %s sampler no longer builds its SMC pass through the captured class: order law not checked" % which)
+                    continue
+                if set(law) != orders:
+                    ck.violation("C09|sampler_order|support|%s" % which.replace(" ", "_"), "the %s sampler hands its SMC pass orders outside / not covering the compatible orders of %s: extra %s missing %s" % (
+                        which, absstate.key_str(key), sorted(set(law) - orders)[:3], sorted(orders - set(law))[:3]), rep)
+                elif max(abs(p - 1.0 / len(orders)) for p in law.values()) > 1e-12:
+                    ck.violation("C09|sampler_order|nonuniform|%s" % which.replace(" ", "_"), "the order the %s sampler hands to its SMC pass is not uniform on the compatible orders of %s" % (which, absstate.key_str(key)), rep)
+            if len(orders) > 1:
+                ck.nontrivial("sampler_order:" + absstate.key_str(key))
+    finally:
+        unc.SMCSampler, pg.ConditionalSMCSampler = saved
+
+
 def py_count(key):
     """Perm.tla's Count formula in exact big-integer arithmetic (validated below against TLC's counts on every small forest,
     then used as the evaluator for inputs far beyond TLC's 32-bit integers)."""
@@ -184,6 +244,9 @@ def run(corrupt=None):
     if bad:
         raise tlc.TLCError("harness evaluator of Perm.tla's Count disagrees with TLC on %d forests, e.g. %s" % (len(bad), bad[:3]))
     large_inputs(ck, RPD, ck.seed)
+    seen2 = set()
+    uniq = [r_ for r_ in recs if not (absstate.canon(r_["st"]) in seen2 or seen2.add(absstate.canon(r_["st"])))]
+    sampler_orders(ck, uniq, data, max_points=(4 if thorough else 3))
     # histories: the reported density must stay right on trees that were edited in place after earlier queries
     import numpy as np
     from .. import treeadt
